@@ -104,7 +104,7 @@ func DifferentialOut(args []string, stdin string, files map[string]string, outFl
 	dir := Scratch()
 	defer os.RemoveAll(dir)
 	for n, c := range files {
-		Write(dir, n, c)
+		Write(dir, n, AuxLayout(n, c))
 	}
 	want, lerr := lib()
 	if outFlag != "" {
@@ -149,4 +149,14 @@ func clipS(s string) string {
 		return s[:600] + "..."
 	}
 	return s
+}
+
+// AuxLayout: line-oriented auxiliary files (*.txt: tip lists, maps, groups, states) are written
+// without their final end-of-line in half of the cases (chosen from the content, so that a case
+// replays identically): the last line counts like the others.
+func AuxLayout(name, content string) string {
+	if strings.HasSuffix(name, ".txt") && len(content)%2 == 0 && strings.HasSuffix(content, "\n") && len(content) > 1 {
+		return content[:len(content)-1]
+	}
+	return content
 }
